@@ -374,6 +374,19 @@ fn run(tier: Tier) -> Sink {
         }
     });
     s = s.merge(sbig);
+    // close neighbours of every level, asked one after the other on one thread: each answer
+    // must be the interval of *its* level (a result carried over from the previous call,
+    // e.g. a memo matched with a tolerance, is off by far more than the 1e-12 allowed)
+    for (kind, level) in vcheck::confs(tier) {
+        let near = [level, level * (1.0 + 1e-9), level - 3e-8, level as f32 as f64, level * (1.0 - 1e-9), level + 3e-8, level];
+        for (n, k) in [(50usize, 20usize), (400, 200), (1000, 12), (3000, 2988)] {
+            for &l in near.iter().filter(|l| **l > 0.0 && **l < 1.0) {
+                let z = z_of(kind, l);
+                judge_wilson(n, k, kind, l, z, false, &mut s);
+                judge_wald(n, k, kind, l, z, &mut s);
+            }
+        }
+    }
     // boolean front-ends: every boolean sequence up to length 12 (quick 10), three
     // canonical arrangements up to 60
     let lmax = tier.pick(10, 12);
@@ -436,7 +449,7 @@ fn main() {
     s.sample(json!({"fe":"Ratio","n":22,"k":15,"rate":"15/22","expect":"bit-identical to ci_wilson(22,15)"}));
     s.sample(json!({"fe":"ci_if","bits":[1,0,1,1,0,1,0,1],"expect":"interval of (8,5); negated predicate counts (8,3)"}));
     rep.rule = format!(
-        "every (n,k) with 0<=n<={}, 0<=k<=n+1 (plus 19 counts for each n in {{5e3,1e4,65537,1e5,1e6,123456789,2^32-1,2^32,2^32+1,6e9,2^53}}) x {} confidences (levels x 3 kinds) through ci_wilson and ci_z_normal; ci, Stats::new().ci and ci_wilson_ratio(n,k/n) for n<={}; exact-rational score residual for n<={}; every boolean sequence of length <={} and 3 arrangements x 8 counts for lengths up to 60 through ci_true, ci_if, Stats::from_iter/extend/extend_if/add_*; distinct by (front-end, outcome variant, kind)",
+        "every (n,k) with 0<=n<={}, 0<=k<=n+1 (plus 19 counts for each n in {{5e3,1e4,65537,1e5,1e6,123456789,2^32-1,2^32,2^32+1,6e9,2^53}}) x {} confidences (levels x 3 kinds) through ci_wilson and ci_z_normal; 6 close neighbours of every level (relative 1e-9, absolute 3e-8, f32 rounding) in one sequential call chain on 4 count pairs; ci, Stats::new().ci and ci_wilson_ratio(n,k/n) for n<={}; exact-rational score residual for n<={}; every boolean sequence of length <={} and 3 arrangements x 8 counts for lengths up to 60 through ci_true, ci_if, Stats::from_iter/extend/extend_if/add_*; distinct by (front-end, outcome variant, kind)",
         tier.pick(1200, 3000),
         vcheck::confs(tier).len(),
         tier.pick(400, 1000),
